@@ -157,6 +157,21 @@ def exhaustive_tables(ctx, impl):
     return tables
 
 
+def latin1_tables(impl):
+    """every latin-1 code point in one field (latin-1 preserves every byte value), split over two fields as well"""
+    out = []
+    enc = 'latin-1' if impl == 'py' else 'binary'
+    allc = ''.join(chr(i) for i in range(256))
+    for pol in POLS:
+        dlm = {'monocolumn': '', 'whitespace': ' '}.get(pol, ',')
+        for sep in SEPS:
+            for drop in ('', '\r\n', '\r\n",', '\r\n ,'):
+                text = ''.join(ch for ch in allc if ch not in drop)
+                rows = [[text]] if pol == 'monocolumn' else [[text, text[128:] + text[:128]], [text[::-1]]]
+                out.append({'impl': impl, 'pol': pol, 'dlm': dlm, 'sep': sep, 'enc': enc, 'header': None, 'rows': rows, 'kind': 'latin1_all'})
+    return out
+
+
 def random_tables(ctx, impl):
     rng = ctx.rng
     n = (7000 if impl == 'py' else 4000) if ctx.tier == 'quick' else (300000 if impl == 'py' else 120000)
@@ -326,6 +341,8 @@ def stats(ctx, cases, exp, got):
         ctx.stat('kind_' + c['kind'])
         if e['readback'] is not None:
             ctx.stat(p + '_representable')
+            if c['kind'] == 'latin1_all':
+                ctx.stat('latin1_all_256_code_points_read_back')
             if not e['exact']:
                 ctx.stat('rfc_cr_normalised')
         if e['err'] is not None:
@@ -351,7 +368,7 @@ def run(ctx):
                 'sets a flag, fails, or has more than one record')
     ctx.exhaustive = True
     for impl in ('py', 'js'):
-        cases = exhaustive_tables(ctx, impl) + random_tables(ctx, impl)
+        cases = exhaustive_tables(ctx, impl) + latin1_tables(impl) + random_tables(ctx, impl)
         args, model, exp, got = evaluate(ctx, impl, cases, True)
         ctx.compare(cases, exp, got, THEOREM, rel=rel, corrupt=corrupt, describe=describe, shrink=shrink(ctx))
         stats(ctx, cases, exp, got)
